@@ -257,7 +257,7 @@ def run(pid: str, tier: str, replay: str | None = None) -> int:
     rep = Report(pid, tier, "model_checking")
     total = 0
     spec_err = []
-    envs, states = _tlc(rep, "AtomsSpec", ["ReflectionSound", "ViewExact"])
+    envs, states = _tlc(rep, "AtomsSpec", ["ReflectionSound", "ViewExact", "NormalizeExact"])
     vecs = [s for s in states if s["phase"] == "evaluated"]
     for n, fails, se in _pmap(_eval_chunk, [(ch, envs) for ch in _split(vecs)]):
         total += n
